@@ -546,6 +546,22 @@ theorem join_both_formula_error (x y : Table) (f g : RowDict → Res Val) (lc rc
           Except.bind]
   simp [join, hlen, h lc rc hlen]
 
+/-- whatever the key extraction of the left table raises (a missing column: `KeyError`; a formula raising on
+some row, e.g. `TypeError`) is what the call raises; the right table is looked at only afterwards -/
+theorem join_key_error_left (x y : Table) (lc rc : List KeySpec) (mode : Mode) (cols : List String)
+    (e : Err) (hlen : lc.length = rc.length) (hcols : joinColNames lc rc = .ok cols)
+    (hnd : cols.Nodup) (hne : cols ≠ []) (hlk : x.keysOf lc = .error e) :
+    join x y (some lc) (some rc) mode = some (.error e) := by
+  have hne' : cols.isEmpty = false := by cases cols <;> simp_all
+  simp [join, hlen, hcols, hnd, hne', hlk, bind, Except.bind]
+
+theorem join_key_error_right (x y : Table) (lc rc : List KeySpec) (mode : Mode) (cols : List String)
+    (lk : List Val) (e : Err) (hlen : lc.length = rc.length) (hcols : joinColNames lc rc = .ok cols)
+    (hnd : cols.Nodup) (hne : cols ≠ []) (hlk : x.keysOf lc = .ok lk) (hrk : y.keysOf rc = .error e) :
+    join x y (some lc) (some rc) mode = some (.error e) := by
+  have hne' : cols.isEmpty = false := by cases cols <;> simp_all
+  simp [join, hlen, hcols, hnd, hne', hlk, hrk, bind, Except.bind]
+
 /-- a named key column that the left table does not have: `KeyError` -/
 theorem join_missing_column (x y : Table) (ln rn : List String) (mode : Mode)
     (hlen : ln.length = rn.length) (hnd : ln.Nodup) (k : String) (hk : k ∈ ln) (hx : k ∉ x.cols) :
@@ -602,6 +618,9 @@ example : joinColNames [.col "a"] [.col "a"] = .ok ["a"] ∧ ["a"].Nodup ∧
 /-- the hypotheses of `join_named_spec` / `xor_named_spec` / `join_missing_column` hold on the same pair -/
 example : ["a"].length = ["a"].length ∧ ["a"].Nodup ∧ ["a"] ≠ [] ∧ (∀ k ∈ ["a"], k ∈ exX.cols) ∧
     (∀ k ∈ ["a"], k ∈ exY.cols) ∧ "zz" ∉ exX.cols := by decide
+
+/-- the hypothesis of `join_key_error_left` holds for a missing column -/
+example : exX.keysOf [.col "zz"] = .error .key := rfl
 
 /-- the side condition of `join_keeps_other_columns` holds for a join on a shared name (even with further
 shared columns) and fails for the pair of `join_drops_column` -/
